@@ -390,6 +390,11 @@ type strCase struct {
 	Workspace bool    `json:"workspace"`
 	Ops       []strOp `json:"ops"`
 	Seed      int64   `json:"seed"`
+	// Quiet: the harness keeps out of the way of the race detector. A mutex or an atomic that both a background job and
+	// the client stream touch ORDERS them in the detector's eyes and hides the unsynchronised accesses of the server
+	// itself. In a quiet run nothing is traced, publications are dropped without a lock, and the only thing a job does
+	// for the harness is WaitGroup.Done at its end (which orders it before the final Wait and before nothing else).
+	Quiet bool `json:"quiet"`
 }
 
 var strPayloads = []map[string]any{
@@ -445,6 +450,8 @@ func runStress(c strCase, dir string) (any, error) {
 		root = dir
 	}
 	client := newStubClient()
+	client.quiet = c.Quiet
+	var jobs sync.WaitGroup
 	client.onPub = func(p *protocol.PublishDiagnosticsParams) {
 		v := 0
 		for _, d := range p.Diagnostics {
@@ -464,6 +471,14 @@ func runStress(c strCase, dir string) (any, error) {
 		uris[u] = fileURI(filepath.Join(dir, n))
 		uOf[string(uris[u])] = u
 		uu := u
+		if c.Quiet {
+			route(string(uris[u]), func(point, key string, gid int64) {
+				if point == "pd.done" {
+					jobs.Done()
+				}
+			})
+			continue
+		}
 		route(string(uris[u]), func(point, key string, gid int64) {
 			tr.log(map[string]any{"e": "hook", "p": strings.TrimPrefix(point, "pd."), "u": uu, "g": gid})
 			sess.ctl.hook(point, key, gid)
@@ -479,7 +494,11 @@ func runStress(c strCase, dir string) (any, error) {
 	for u := range names {
 		vers[u] = 1
 		open[u] = true
-		tr.log(map[string]any{"e": "deliver", "u": u, "v": 1})
+		if c.Quiet {
+			jobs.Add(1)
+		} else {
+			tr.log(map[string]any{"e": "deliver", "u": u, "v": 1})
+		}
 		_ = sess.srv.DidOpen(ctx, &protocol.DidOpenTextDocumentParams{TextDocument: protocol.TextDocumentItem{URI: uris[u], Version: 1, Text: text(u, 1)}})
 	}
 	var opIndex, nreqA atomic.Int32
@@ -493,7 +512,13 @@ func runStress(c strCase, dir string) (any, error) {
 			switch op.Op {
 			case "change":
 				vers[op.URI]++
-				tr.log(map[string]any{"e": "deliver", "u": op.URI, "v": vers[op.URI]})
+				if c.Quiet {
+					if open[op.URI] {
+						jobs.Add(1)
+					}
+				} else {
+					tr.log(map[string]any{"e": "deliver", "u": op.URI, "v": vers[op.URI]})
+				}
 				ch := protocol.TextDocumentContentChangeEvent{Range: protocol.Range{End: protocol.Position{Line: 10000000}}, Text: text(op.URI, vers[op.URI])}
 				_ = sess.srv.DidChange(ctx, &protocol.DidChangeTextDocumentParams{
 					TextDocument:   protocol.VersionedTextDocumentIdentifier{TextDocumentIdentifier: protocol.TextDocumentIdentifier{URI: u}},
@@ -508,11 +533,17 @@ func runStress(c strCase, dir string) (any, error) {
 				_ = writeFiles(dir, map[string]string{names[op.URI]: text(op.URI, vers[op.URI])})
 				_ = sess.srv.DidSave(ctx, &protocol.DidSaveTextDocumentParams{TextDocument: protocol.TextDocumentIdentifier{URI: u}})
 			case "close":
-				tr.log(map[string]any{"e": "close", "u": op.URI})
+				if !c.Quiet {
+					tr.log(map[string]any{"e": "close", "u": op.URI})
+				}
 				_ = sess.srv.DidClose(ctx, &protocol.DidCloseTextDocumentParams{TextDocument: protocol.TextDocumentIdentifier{URI: u}})
 				open[op.URI] = false
 			case "open":
-				tr.log(map[string]any{"e": "open", "u": op.URI, "v": vers[op.URI]})
+				if c.Quiet {
+					jobs.Add(1)
+				} else {
+					tr.log(map[string]any{"e": "open", "u": op.URI, "v": vers[op.URI]})
+				}
 				_ = sess.srv.DidOpen(ctx, &protocol.DidOpenTextDocumentParams{TextDocument: protocol.TextDocumentItem{URI: u, Version: 1, Text: text(op.URI, vers[op.URI])}})
 				open[op.URI] = true
 			case "request":
@@ -536,7 +567,11 @@ func runStress(c strCase, dir string) (any, error) {
 	}
 	// ... and every background job the stream started must end
 	stuck := ""
-	if !waitUntil(60*time.Second, func() bool {
+	if c.Quiet {
+		if _, late := timed(60*time.Second, func() { jobs.Wait() }); late != "" {
+			stuck = "background jobs did not finish within 60 s after the stream ended"
+		}
+	} else if !waitUntil(60*time.Second, func() bool {
 		sess.ctl.mu.Lock()
 		defer sess.ctl.mu.Unlock()
 		tr.mu.Lock()
@@ -557,7 +592,7 @@ func runStress(c strCase, dir string) (any, error) {
 	}) {
 		stuck = "background jobs did not finish within 60 s after the stream ended"
 	}
-	if stuck == "" {
+	if stuck == "" && !c.Quiet {
 		tr.log(map[string]any{"e": "quiesce"})
 	}
 	tr.mu.Lock()
